@@ -465,10 +465,18 @@ theorem computeFlags_region (keep : Bool) : ∀ (f : Forest), regionUnrenamed (c
       simp only [this, Bool.false_eq_true, if_false, Bool.not_false, true_and]
       exact ihc
 
-/-- `computeFlags`: a function scope containing `with` is not renamed, nor is any block scope of that function -/
+theorem anyWith_computeFlags (keep : Bool) : ∀ (f : Forest) (cur : Bool),
+    anyWith (computeFlags keep cur f) = anyWith f := by
+  intro f
+  induction f with
+  | nil => intro _; rfl
+  | node i ch sib ihc ihs => intro cur; simp only [computeFlags, anyWith, ihc, ihs]
+
+/-- `computeFlags`: a function scope that contains `with`, or encloses a function that does, is not renamed, nor is
+    any block scope of that function -/
 theorem computeFlags_with (keep : Bool) : ∀ (f : Forest) (cur : Bool),
     (computeFlags keep cur f).all
-      (fun i ch => !(i.isFunc && i.hasWith) || (!i.rename && regionUnrenamed ch)) = true := by
+      (fun i ch => !(i.isFunc && (i.hasWith || anyWith ch)) || (!i.rename && regionUnrenamed ch)) = true := by
   intro f
   induction f with
   | nil => intro _; rfl
@@ -476,12 +484,72 @@ theorem computeFlags_with (keep : Bool) : ∀ (f : Forest) (cur : Bool),
     intro cur
     simp only [computeFlags, all_node]
     refine ⟨?_, ihc _, ihs _⟩
-    by_cases hf : (i.isFunc && i.hasWith) = true
-    · simp only [Bool.and_eq_true] at hf
-      simp only [hf.1, hf.2, if_true, Bool.not_true, Bool.false_and, Bool.and_self, Bool.not_false,
-        Bool.true_and, Bool.false_or]
-      exact computeFlags_region keep ch
-    · have : (i.isFunc && i.hasWith) = false := by simpa using hf
-      simp [this]
+    by_cases hf : i.isFunc = true
+    · by_cases hw : (i.hasWith || anyWith ch) = true
+      · simp only [hf, hw, anyWith_computeFlags, if_true, Bool.not_true, Bool.false_and, Bool.not_false,
+          Bool.true_and, Bool.or_eq_true]
+        exact Or.inr (computeFlags_region keep ch)
+      · have hw' : (i.hasWith || anyWith ch) = false := by simpa using hw
+        simp [hf, hw', anyWith_computeFlags]
+    · have hf' : i.isFunc = false := by simpa using hf
+      simp [hf']
+
+theorem anyWith_node {i : Info} {ch sib : Forest} (h : anyWith (.node i ch sib) = false) :
+    (i.isFunc && i.hasWith) = false ∧ anyWith ch = false ∧ anyWith sib = false := by
+  simpa [anyWith, Bool.or_eq_false_iff, and_assoc] using h
+
+/-- no `with` anywhere and no `KeepVarNames`: every scope is renamed -/
+theorem computeFlags_allRenamed : ∀ (f : Forest), anyWith f = false →
+    allRenamed (computeFlags false true f) = true := by
+  intro f
+  induction f with
+  | nil => intro _; rfl
+  | node i ch sib ihc ihs =>
+    intro h
+    obtain ⟨h1, h2, h3⟩ := anyWith_node h
+    simp only [computeFlags, allRenamed, all_node]
+    have hr : (if i.isFunc = true then !(i.hasWith || anyWith ch) && !false else true) = true := by
+      by_cases hf : i.isFunc = true
+      · have : i.hasWith = false := by simpa [hf] using h1
+        simp [hf, this, h2]
+      · simp [hf]
+    rw [hr]
+    exact ⟨rfl, ihc h2, ihs h3⟩
+
+/-- the flags js.go computes never switch renaming off below a renamed scope -/
+theorem computeFlags_flagsOk (keep : Bool) : ∀ (f : Forest) (cur : Bool),
+    (cur = true → keep = false ∧ anyWith f = false) → flagsOk (computeFlags keep cur f) = true := by
+  intro f
+  induction f with
+  | nil => intro _ _; rfl
+  | node i ch sib ihc ihs =>
+    intro cur hcur
+    simp only [computeFlags, flagsOk, Bool.and_eq_true]
+    constructor
+    · by_cases hf : i.isFunc = true
+      · by_cases hr : (!(i.hasWith || anyWith ch) && !keep) = true
+        · simp only [hf, if_true, hr]
+          simp only [Bool.and_eq_true, Bool.not_eq_true', Bool.or_eq_false_iff] at hr
+          have hk : keep = false := hr.2
+          subst hk
+          exact computeFlags_allRenamed ch hr.1.2
+        · have hr' : (!(i.hasWith || anyWith ch) && !keep) = false := by simpa using hr
+          simp only [hf, if_true, hr', Bool.false_eq_true, if_false]
+          exact ihc false (by simp)
+      · have hf' : i.isFunc = false := by simpa using hf
+        simp only [hf', Bool.false_eq_true, if_false]
+        cases cur with
+        | true =>
+          obtain ⟨hk, hw⟩ := hcur rfl
+          subst hk
+          simp only [if_true]
+          exact computeFlags_allRenamed ch (anyWith_node hw).2.1
+        | false =>
+          simp only [Bool.false_eq_true, if_false]
+          exact ihc false (by simp)
+    · apply ihs cur
+      intro hc
+      obtain ⟨hk, hw⟩ := hcur hc
+      exact ⟨hk, (anyWith_node hw).2.2⟩
 
 end Verif.Proofs.Rename
